@@ -435,6 +435,16 @@ Section Dispatcher.
         end
     end.
 
+  (** ** SimpleJSONRPCRequestHandler.do_POST: status and body of the HTTP answer.
+      (Reading and decoding the body is the Wire model's business, C17; here the handler is
+      entered with the decoded text's parse outcome.)  An exception escaping _marshaled_dispatch
+      is answered 500 with a -32603 error object built from the server configuration. *)
+  Definition do_post (srvf : form) (srv : server) (dm : option cid) (p : parse_outcome) : Z * reply :=
+    match marshaled_dispatch srvf srv dm p with
+    | Ok (r, _) => (200, r)
+    | Raise _ => (500, ROne (err_obj srvf VNone (-32603) "Server error: exception in the dispatcher"))
+    end.
+
   (** ** Draining the notification pool: every enqueued task executed once, in queue order *)
   Definition drain_event (reg : registry) (ev : event) : list event :=
     match ev with
@@ -713,5 +723,17 @@ Definition dispatch_check (c : dcase) : bool :=
      | Ok (_, log) =>
          list_eqb event_eqb (map obs_event log) (dc_log c)
          && log_perm (map obs_event (drain (body_of (dc_table c)) (sigs_of (dc_table c)) (dc_reg c) log)) (dc_drained c)
+     | Raise _ => true
+     end.
+
+(** do_POST: the same case plus the HTTP status the implementation answered with *)
+Definition http_check (cs : dcase * Z) : bool :=
+  let '(c, status) := cs in
+  let '(st, r) := do_post (body_of (dc_table c)) (sigs_of (dc_table c)) (dc_form c)
+                          (mkSrv (dc_reg c) (dc_pool c) (dc_jsonclass c)) (dc_dm c) (dc_input c) in
+  Z.eqb st status
+  && oreply_eqb (obs_reply (raisers (dc_table c)) (Ok (r, []))) (dc_reply c)
+  && match model_run c with
+     | Ok (_, log) => list_eqb event_eqb (map obs_event log) (dc_log c)
      | Raise _ => true
      end.
